@@ -22,6 +22,7 @@ var c04Specs = []famSpec{
 	{Family: "rect-soup", Pool: 200000, PoolQ: 20000},
 	{Family: "rect-cavity", Pool: 100000, PoolQ: 10000},
 	{Family: "touching", Pool: 100000, PoolQ: 10000},
+	{Family: "stacked", Pool: 60000, PoolQ: 5000},
 	{Family: "nested-small", Pool: 40000, PoolQ: 2000},
 	{Family: "nested", Pool: 150000, PoolQ: 3000},
 	{Family: "nested-large", FreshQ: 3000, FreshT: 150000},
@@ -32,7 +33,7 @@ var c04Specs = []famSpec{
 func init() {
 	register(&run.Prop{
 		ID: "C04",
-		Rule: "cases as C01 (nested star polygons to depth 6, lattice and rectilinear sets with touching/shared edges, dense random sets); 2 (clip type, fill rule) pairs per case through BooleanOpPolyTree64 and Clipper64.ExecutePolyTree64, plus BooleanOpPolyTreeD on the same integers. " +
+		Rule: "cases as C01 (nested star polygons to depth 6, lattice and rectilinear sets with touching/shared edges, dense random sets); 2 (clip type, fill rule) pairs per case (6 in the stacked, touching and rect-cavity families) through BooleanOpPolyTree64 and Clipper64.ExecutePolyTree64, plus BooleanOpPolyTreeD on the same integers. " +
 			"Checked: the multiset of tree polygons equals the flat Paths result (cyclic sequences); IsHole() == (signed area < 0); for every node, every other tree polygon that contains it (decided at the node's vertices that are > 2 units from the other polygon's edges) — the innermost such polygon must be the node's parent, none means root; " +
 			"no sibling contains it; D tree has the same shape, Scale()=10^p. Non-trivial = tree with depth >= 2 or >= 3 polygons; distinct by input digest.",
 		Assumptions: []string{"containment between two solution polygons is decided only at vertices farther than 2 units from the other polygon's edges; undecidable pairs are skipped"},
@@ -143,7 +144,11 @@ func c04Run(ctx *run.Ctx, id run.CaseID) {
 	}
 	r := gen.ForCase(id.Family+"#c04", id.Index, id.Stream)
 	nontrivial := false
-	for k := 0; k < 2; k++ {
+	pairs := 2
+	if id.Family == "stacked" || id.Family == "touching" || id.Family == "rect-cavity" { // tiny inputs whose nesting depends strongly on the fill rule
+		pairs = 6
+	}
+	for k := 0; k < pairs; k++ {
 		ct := clipTypes[r.Intn(4)]
 		fr := fillRules[r.Intn(4)]
 		tag := ctName(ct) + "/" + frName(fr)
@@ -154,8 +159,7 @@ func c04Run(ctx *run.Ctx, id run.CaseID) {
 		if !ctx.Guard(digest, "tree/"+tag, in, func() {
 			c := clip.NewClipper64()
 			c.VerifRecord(rec)
-			c.AddPaths(subj, clip.Subject, false)
-			c.AddPaths(clp, clip.Clip, false)
+			addClosed(c, subj, clp)
 			tree = clip.NewPolyTree64()
 			od := clip.PathsD{}
 			okT = c.ExecutePolyTree64(ct, fr, tree, &od)
